@@ -549,6 +549,19 @@ func (e *kvElection) attemptPriorityTakeover(payloadBytes []byte) error {
 		return fmt.Errorf("current leader has equal or higher priority: %d >= %d", currentPayload.Priority, e.cfg.Priority)
 	}
 
+	// The payload prepared for the Create must not be reused: that Create may
+	// have been applied although its acknowledgement was lost, in which case
+	// its token has already been in the record. Every acquisition publishes
+	// a token of its own.
+	payloadBytes, err = json.Marshal(leadershipPayload{
+		ID:       e.cfg.InstanceID,
+		Token:    uuid.New().String(),
+		Priority: e.cfg.Priority,
+	})
+	if err != nil {
+		return fmt.Errorf("failed to marshal payload: %w", err)
+	}
+
 	e.verifYield("takeover.read")
 	newRev, err := e.kv.Update(e.key, payloadBytes, entry.Revision())
 	if err != nil {
